@@ -119,7 +119,15 @@ pub fn line_text(case: &J) -> String {
     let tag = if l["tag"]["ok"] == true { Some(cps(&l["tag"]["s"])) } else { None };
     let t = tag.as_deref();
     let tagtxt = t.map(|x| format!("#{}#", x)).unwrap_or_default();
-    if l["doc"]["k"] != "nodoc" { return json_text(&l["doc"], t, true); }
+    if l["doc"]["k"] != "nodoc" {
+        // layout codes: insignificant whitespace around / inside the document (a JSON text stays the same document)
+        let body = json_text(&l["doc"], t, true);
+        return match l["ndk"].as_u64().unwrap() {
+            6 => format!("   {}", body), 7 => format!("{} ", body), 8 => format!("{}\t", body), 9 => format!("{}\r", body),
+            10 => format!(" {} ", body.replace(",", " , ").replace(":", " : ").replace("{", "{ ").replace("[", "[ ")),
+            _ => body
+        };
+    }
     match l["ndk"].as_u64().unwrap() {
         0 => cps(&case["text"]),
         1 => tagtxt,
